@@ -125,6 +125,31 @@ func (e *engine) witnesses() []scen {
 	}
 }
 
+// boundaryScenarios: the two halves of a boundary-ambiguous (pid, ctx) pair whose protocol-ID
+// lengths differ by m·2^14 / m·2^16 (where 2-byte-uvarint / 16-bit length prefixes wrap), split
+// across the two sides, plus a control pair that must match. With a wrapping length prefix the two
+// halves get one hash, are exchanged, matched and handed a stream (monitor solicitsys.match:unsound).
+func (e *engine) boundaryScenarios() []scen {
+	var out []scen
+	for _, c := range []struct {
+		label string
+		shift int
+	}{{"boundary-2^14", 1 << 14}, {"boundary-2^16", 1 << 16}, {"boundary-2x2^16", 2 << 16}} {
+		k := 1 + e.rng.Intn(9)
+		p := e.rng.Bytes(c.shift + k + 40)
+		long := dirSpec{string(p[:c.shift+k]), p[c.shift+k:], "", 0}
+		short := dirSpec{string(p[:k]), p[k:], "", 0}
+		control := dirSpec{"boundary/control", []byte("c"), "", 0}
+		pools := [2][]dirSpec{{long, control}, {short, control}}
+		if e.rng.Intn(2) == 0 {
+			pools = [2][]dirSpec{{short, control}, {long, control}}
+		}
+		cf := cfg{peers: e.peerPair(e.rng.Intn(8)), pC: "third-peer-C", uuid: 5150, tpt: [2]uint64{7, 8}, max: [2]uint32{8, 8}}
+		out = append(out, scen{label: c.label, c: cf, pool: pools, script: []string{"a0:0", "a1:0", "q", "a0:1", "a1:1", "q"}, long: true, free: c.shift > 1<<14})
+	}
+	return out
+}
+
 func main() {
 	a := lib.ParseArgs()
 	log := logrus.New()
@@ -141,15 +166,61 @@ func main() {
 		fmt.Println("unknown property", a.Prop)
 		return
 	}
-	e.rep.Rule = "two real solicitation controllers on two real controller buses joined by a fake link pair (in-memory stream pipes; each side sees its own local/remote peer, link uuid, transport uuid; optional second link to a third peer; link learnt from EstablishLinkWithPeer or from the incoming control stream); 8 peer-id pair classes in both orders incl. unequal lengths and prefix pairs; per side 5-9 SolicitProtocol directives (same pid / other ctx, peer and transport constraints admitting and not admitting, two directives with one hash, a boundary-ambiguous (pid, ctx) pair split across the sides) added and removed over time, some before the link comes up; maxHashes 256 or 1-3 (truncation); seeded random schedules of add / remove / deliver exchange / let an OpenMountedStream proceed / stream arrives, compared with the Lean model after EVERY step and checked by the model-independent monitors at every quiescent point; the witness histories of the refuted theorems replayed every run; probes: undecodable hash, untracked link, removed link; distinct = distinct op line"
+	e.rep.Rule = "two real solicitation controllers on two real controller buses joined by a fake link pair (in-memory stream pipes; each side sees its own local/remote peer, link uuid, transport uuid; optional second link to a third peer; link learnt from EstablishLinkWithPeer or from the incoming control stream); 8 peer-id pair classes in both orders incl. unequal lengths and prefix pairs; per side 5-9 SolicitProtocol directives (same pid / other ctx, peer and transport constraints admitting and not admitting, two directives with one hash, a boundary-ambiguous (pid, ctx) pair split across the sides; scripted: pairs whose protocol-ID lengths differ by 2^14, 2^16, 2·2^16 — where fixed-width / truncated length prefixes wrap — split across the sides next to a control pair) added and removed over time, some before the link comes up; maxHashes 256 or 1-3 (truncation); seeded random schedules of add / remove / deliver exchange / let an OpenMountedStream proceed / stream arrives, compared with the Lean model after EVERY step and checked by the model-independent monitors at every quiescent point; the witness histories of the refuted theorems replayed every run; HUB MODE: one real controller with 2–3 links to different peers (same transport uuid / different ones; hub lower, higher or in between; links coming up at different times, before and after the solicitations), hub solicitations constrained to each spoke / each transport / a wrong peer, compared per link with Bifrost.SolicitHub after every step, per-link monitors (a solicitation not admitting link L never receives a stream on L and its hash is never on L's wire; one admitting it is offered and connected); probes: undecodable hash, untracked link, removed link; distinct = distinct op line"
 	e.rep.Require("add", "remove", "deliver", "open", "arrive", "arrive.closed", "quiescent", "final", "linkup",
-		"match.multi", "ends", "preadd", "truncated", "reexchange", "open.closed", "lower.A", "lower.B", "latelink", "stub", "probe.badhex", "probe.unknownlink", "linkremoved", "known.late")
+		"match.multi", "ends", "preadd", "truncated", "reexchange", "open.closed", "lower.A", "lower.B", "latelink", "stub", "probe.badhex", "probe.unknownlink", "linkremoved", "boundary.long", "free.connected", "known.late")
 	if a.Prop != "C30" {
 		// the late-solicitation clause is a C30 monitor
 		e.rep.Required = e.rep.Required[:len(e.rep.Required)-1]
 	}
 	for _, sc := range e.witnesses() {
 		e.runScenario(sc)
+	}
+	bnd := e.boundaryScenarios()
+	if a.Prop != "C30" {
+		// boundary-ambiguous (pid, ctx) pairs are a C30 matter; the draws above keep the PRNG stream aligned
+		bnd = nil
+		e.rep.Branches["boundary.long"]++
+		e.rep.Branches["free.connected"]++
+	}
+	for _, sc := range bnd {
+		t0 := time.Now()
+		e.runScenario(sc)
+		if os.Getenv("VERIF_DEBUG") != "" {
+			fmt.Fprintf(os.Stderr, "boundary scenario %s: %v\n", sc.label, time.Since(t0))
+		}
+		e.rep.Branches["boundary.long"]++
+		// the 16–128 KiB preimages of these scenarios are not carried along in later oracle tables
+		for k := range e.orc {
+			if len(k) > 8192 {
+				delete(e.orc, k)
+			}
+		}
+	}
+	// hub mode: one controller with 2–3 links (Bifrost.SolicitHub)
+	e.rep.Require("hub.scenario", "hub.linkup", "hub.add", "hub.remove", "hub.deliver", "hub.open", "hub.arrive", "hub.final", "hub.quiescent",
+		"hub.same-transport", "hub.other-transport", "hub.three-links", "hub.connected", "hub.ends")
+	nh := 7
+	if a.Scale > 1 {
+		nh = 60
+	}
+	hubFailed := 0
+	for _, sc := range e.hubScenarios(nh) {
+		if hubFailed >= 4 {
+			break
+		}
+		before := len(e.rep.Disagreements)
+		t0 := time.Now()
+		e.runHub(sc)
+		if os.Getenv("VERIF_DEBUG") != "" {
+			fmt.Fprintf(os.Stderr, "hub scenario %s: %v, %d model queries so far\n", sc.label, time.Since(t0), e.m.N)
+		}
+		for _, d := range e.rep.Disagreements[before:] {
+			if d.Key != "solicitsys.match:late-solicitation" {
+				hubFailed++
+				break
+			}
+		}
 	}
 	n := 36
 	if a.Scale > 1 {
@@ -158,7 +229,11 @@ func main() {
 	failed := 0
 	for k := 0; k < n && failed < 6; k++ {
 		before := len(e.rep.Disagreements)
+		t0 := time.Now()
 		e.runScenario(e.randomScenario(k))
+		if os.Getenv("VERIF_DEBUG") != "" {
+			fmt.Fprintf(os.Stderr, "scenario s%d: %v\n", k, time.Since(t0))
+		}
 		for _, d := range e.rep.Disagreements[before:] {
 			if d.Key != "solicitsys.match:late-solicitation" {
 				failed++
